@@ -151,6 +151,7 @@ func c16Enumerate(tier string, emit func(*eng.Case)) {
 			emit(&eng.Case{Kind: "xpager", HTML: c.HTML, URL: c.URL, Algo: algo, P: c.P})
 		}
 	})
+	emit = withDecor(decorEvery(tier), emit)
 	maxOdd := 2
 	if tier == "thorough" {
 		maxOdd = 3
@@ -291,7 +292,7 @@ func init() {
 			if tier == "thorough" {
 				m = 3
 			}
-			return map[string]any{"page_url_families": len(c16Pages), "k": "1..3", "skeletons": len(c16Skels), "odd_hrefs": len(c16Odd), "max_odd_slots": m}
+			return map[string]any{"decorated_variants": decorBound(tier), "page_url_families": len(c16Pages), "k": "1..3", "skeletons": len(c16Skels), "odd_hrefs": len(c16Odd), "max_odd_slots": m}
 		},
 	})
 }
